@@ -13,6 +13,7 @@ type sqlTok struct {
 }
 
 func sqlLex(src string) ([]sqlTok, error) {
+	maxParam := 0
 	var toks []sqlTok
 	i := 0
 	for i < len(src) {
@@ -73,7 +74,20 @@ func sqlLex(src string) ([]sqlTok, error) {
 			for j < len(src) && src[j] >= '0' && src[j] <= '9' {
 				j++
 			}
-			toks = append(toks, sqlTok{"param", src[i:j]})
+			text := src[i:j]
+			if text == "?" {
+				// SQLite: a plain ? is numbered one more than the largest parameter number assigned so far; numbering it
+				// here (textual order) makes its meaning independent of the order in which clauses are evaluated
+				maxParam++
+				text = fmt.Sprintf("?%d", maxParam)
+			} else {
+				var n int
+				fmt.Sscanf(text[1:], "%d", &n)
+				if n > maxParam {
+					maxParam = n
+				}
+			}
+			toks = append(toks, sqlTok{"param", text})
 			i = j
 		case c == '$' || c == ':' || c == '@':
 			j := i + 1
